@@ -11,7 +11,22 @@ git apply $SRC/patch.diff || { echo "patch does not apply"; cd /verif; git -C /r
 PYTHONPATH=$WT timeout 900 /venv/bin/python $SRC/demo.py >/tmp/seed_$ID.mut.log 2>&1; MUT=$?
 TRES="not run"
 if [ -n "$TESTS" ]; then
-  PYTHONPATH=$WT /venv/bin/python -m pytest -q -p no:cacheprovider $TESTS >/tmp/seed_$ID.tests.log 2>&1; TRES="exit $? : $(tail -1 /tmp/seed_$ID.tests.log)"
+  PYTHONPATH=$WT /venv/bin/python -m pytest -q -p no:cacheprovider --timeout=900 --junitxml=/tmp/seed_$ID.junit.xml $TESTS >/tmp/seed_$ID.tests.log 2>&1; TRES="exit $? : $(tail -1 /tmp/seed_$ID.tests.log)"
+  # the reference is the stable-pass list of the baseline: every stable-pass test of these files must still pass
+  REG=$(python3 - <<PY
+import json, xml.etree.ElementTree as ET
+stable = set(json.load(open("/root/.vp/BASELINE.json"))["stable_pass"])
+files = "$TESTS".split()
+mods = {f[:-3].replace("/", ".") for f in files}
+passed = set()
+for tc in ET.parse("/tmp/seed_$ID.junit.xml").getroot().iter("testcase"):
+    if not any(ch.tag in ("failure", "error", "skipped") for ch in tc):
+        cn = tc.get("classname"); mod, cls = cn.rsplit(".", 1); passed.add(f"{mod}.{cls}::{tc.get('name')}")
+want = {t for t in stable if t.split("::")[0].rsplit(".", 1)[0] in mods}
+print(f"stable-pass tests in these files: {len(want)}, not passing with the patch: {sorted(want - passed)}")
+PY
+)
+  TRES="$TRES ; $REG"
 fi
 rm -f $WT/sim.vcd
 cd /verif
